@@ -329,8 +329,8 @@ def scale_supports(ctx, rng):
 
     def put(name, n, E, regime):
         out.append((name, n, _renumber(rng, n, E), regime))
-    reps = 1 if ctx.quick else 4
-    for _ in range(reps):
+    reps = 1 if ctx.quick else 3
+    for rep in range(reps):
         # dense, beyond 2048 but below 32767
         n, E = s_block_tail(rng, rng.randint(27, 40), rng.randint(2, 6))
         put("block+tail+isolated", n, E, "dense")
@@ -343,7 +343,7 @@ def scale_supports(ctx, rng):
         n, E = s_block_tail(rng, rng.randint(48, 56), rng.randint(2, 5))
         put("block+tail+isolated", n, E, "dense-big")
         # many nodes
-        n = rng.randint(130, 300)
+        n = rng.randint(260, 300) if rep == 0 else rng.randint(130, 300)     # hub degree > 255 at least once
         kind, E = s_hub(rng, n)
         put("hub-" + kind, n, E, "many-nodes")
         m = rng.choice([3, 3, 4])
@@ -378,7 +378,8 @@ def scale_jobs(ctx):
         for dt in [rng.choice(["int8", "uint8"]), rng.choice(SMALL_INTS)]:
             add_jobs(jobs, [FN_WU, FN_TWU, FN_SD], ones, 1, src, dt, lay(), mapping=scale_dtype)
             add_jobs(jobs, [FN_WD, FN_TWD], dones, 1, src + "-dir", dt, lay(), mapping=scale_dtype)
-        if regime == "many-nodes":
+        if regime == "many-nodes":  # every connection reciprocal: > 127 / > 255 reciprocal pairs at the hub
+            add_jobs(jobs, [FN_WD, FN_TWD], ones, 1, src, rng.choice(["int8", "uint8"]), lay(), mapping=scale_dtype)
             continue
         # (c) weights -1/+1 as a signed integer array; fractional weights (c/3)^3 (float64)
         if n <= 45:
@@ -444,8 +445,12 @@ def validate_parallel(ctx, recs, parts=6, par=3):
 
 
 def what(job, rec, clause):
+    n, C, out = rec["n"], rec["C"], rec["out"]
+    if n > 12:          # the replay file holds the matrix
+        C = "<%dx%d, %d nonzero entries: see the replay file>" % (n, n, sum(1 for row in C for v in row if v))
+        out = [v[:12] + (["..."] if len(v) > 12 else []) for v in out]
     return "src=%s n=%d d=%d dtype=%s layout=%s C=%s out=%s raised=%s" % (
-        job.get("src"), rec["n"], rec["d"], rec["dtype"], job.get("layout", "C"), rec["C"], rec["out"], rec["raised"])
+        job.get("src"), n, rec["d"], rec["dtype"], job.get("layout", "C"), C, out, rec["raised"])
 
 
 def run(ctx):
